@@ -43,5 +43,8 @@ for i in 1 2 3; do run mutants/eq-w4R2-$i.patch C06 quiet; done
 for i in 1 2 3; do run mutants/eq-w4R1-$i.patch C04 quiet; run mutants/eq-w4R1-$i.patch C05 quiet; done
 for i in 1 2 3; do run mutants/eq-w4R3-$i.patch C11 quiet; run mutants/eq-w4R3-$i.patch C12 quiet; done
 for i in 1 2 3; do run mutants/eq-w4R4-$i.patch C19 quiet; done
+# wave 7: more correct refactorings (atomics-heavy queues; collections and agents)
+for i in 1 2 3; do run mutants/eq-w7R5-$i.patch C04 quiet; run mutants/eq-w7R5-$i.patch C05 quiet; done
+for i in 1 2 3; do run mutants/eq-w7R6-$i.patch C19 quiet; done
 echo "seeds: pass=$pass fail=$fail"
 [ $fail = 0 ]
